@@ -421,6 +421,11 @@ func Unwatch() int                           { return 1 }
 // LockHeld: ghost query, only meaningful symbolically.
 func LockHeld(mu interface{}) bool { return false }
 
+// LockAcquired / ResetLockAcquired: ghost queries (has the mutex been taken at least once
+// since the reset); natively nothing is observable, the query answers true.
+func LockAcquired(mu interface{}) bool { return true }
+func ResetLockAcquired(mu interface{}) {}
+
 // Outcome is printed by the generated replay test.
 func Outcome() string {
 	mu.Lock()
